@@ -229,6 +229,25 @@ class TracerScenario:
                 out[tgt.attr] = val
         return out
 
+    def own_rng_attrs(self) -> Dict[str, str]:
+        """attributes that CallTracer.__init__ binds to a generator object of its own: `self.x = random.Random()` (how it is
+        seeded is kept: no argument = from the operating system's entropy)"""
+        if getattr(self, "_own_rng", None) is None:
+            out: Dict[str, str] = {}
+            init = self.repo.method(self.cls, "__init__")
+            if init is not None:
+                for x in ast.walk(init.node):
+                    tgt = val = None
+                    if isinstance(x, ast.Assign) and len(x.targets) == 1:
+                        tgt, val = x.targets[0], x.value
+                    elif isinstance(x, ast.AnnAssign) and x.value is not None:
+                        tgt, val = x.target, x.value
+                    if isinstance(tgt, ast.Attribute) and isinstance(tgt.value, ast.Name) and tgt.value.id == "self" and isinstance(val, ast.Call) \
+                            and (dotted(val.func) or "") in ("random.Random", "Random", "random.SystemRandom", "SystemRandom"):
+                        out[tgt.attr] = "unseeded" if not val.args and not val.keywords else "seeded:" + norm(val)
+            self._own_rng = out
+        return self._own_rng
+
     def _on_attr(self, obj: V, attr: str, node: ast.AST, st: State) -> Optional[V]:
         if isinstance(obj, S) and obj.name == "self":
             if attr in self.attrs:
@@ -294,6 +313,15 @@ class TracerScenario:
             if tail == "get_func":
                 st.effects.append(("get_func", tuple(args)))
                 return self.func_value if self.func_value is not None else U("get_func")
+        if meth in ("randrange", "randint", "random", "choice", "getrandbits", "uniform") and isinstance(fval, S) and fval.name.startswith("self.") \
+                and fval.name[5:] in self.own_rng_attrs():
+            # a generator object the tracer created for itself in __init__ (random.Random()): the program's global
+            # generator is neither consumed nor able to influence the draw
+            st.effects.append(("draw", "own." + meth, tuple(args)))
+            return self.draw if self.draw is not None else U("draw")
+        if meth in ("getstate", "setstate", "seed") and isinstance(fval, S) and fval.name.startswith("self.") and fval.name[5:] in self.own_rng_attrs():
+            st.effects.append(("rng-state", "own." + meth))
+            return R("rngstate") if meth == "getstate" else K(None)
         if fname is not None and fname.split(".")[0] == "random" and fname.split(".")[-1] in ("getstate", "setstate", "seed"):
             st.effects.append(("rng-state", fname))
             return R("rngstate") if fname.endswith("getstate") else K(None)
